@@ -504,6 +504,8 @@ func TestC20PostScriptName(t *testing.T) {
 			}
 		}
 		stats.CaseIn("psname", stats.Hash(f.FamilyName, f.Width, f.Weight, f.IsBold, f.IsItalic, f.IsOblique), special,
-			func() string { return fmt.Sprintf("%q width=%d weight=%d -> %q", f.FamilyName, f.Width, f.Weight, name) })
+			func() string {
+				return fmt.Sprintf("%q width=%d weight=%d -> %q", f.FamilyName, f.Width, f.Weight, name)
+			})
 	})
 }
